@@ -11,7 +11,7 @@ IR
                "body": [Node]}
     Node    = ("T", text)                 literal text
             | ("E", python_expression)    ${expression}
-            | ("D", name, [Node])         <%def name="name()">..</%def>
+            | ("D", name, [Node], sig)    <%def name="name(sig)">..</%def>   sig = "" | "**kw"
             | ("B", name | None, [Node])  <%block name="name">..</%block>  /  <%block>..</%block>
             | ("IF", [Node])              LF % if True: LF .. LF % endif LF      (error grid only)
             | ("C", [Node])               <%call expr="wrap()">..</%call>        (error grid only)
@@ -42,7 +42,7 @@ def print_nodes(nodes, out):
         elif k == "E":
             out.append("${" + nd[1] + "}")
         elif k == "D":
-            out.append('<%%def name="%s()">' % nd[1])
+            out.append('<%%def name="%s(%s)">' % (nd[1], nd[3] if len(nd) > 3 else ""))
             print_nodes(nd[2], out)
             out.append("</%def>")
         elif k == "B":
@@ -94,12 +94,21 @@ class RefRecursion(RecursionError):
     pass
 
 
-WRAP_OPEN, WRAP_CLOSE = "w(", ")"
-WRAP_DEF = ("D", "wrap", [("T", WRAP_OPEN), ("E", "caller.body()"), ("T", WRAP_CLOSE)])
+class RefDontCare(BaseException):
+    """the statement does not fix the answer from here on"""
 
-# a call chain that does not repeat a (level, member) pair is at most levels x (members + body) long; callables have
-# no state, so a longer chain never ends
-MAX_DEPTH = 64
+
+WRAP_OPEN, WRAP_CLOSE = "w(", ")"
+WRAP_DEF = ("D", "wrap", [("T", WRAP_OPEN), ("E", "caller.body()"), ("T", WRAP_CLOSE)], "")
+
+_CODE = {}
+
+
+def _compiled(src):
+    c = _CODE.get(src)
+    if c is None:
+        c = _CODE[src] = compile(src, "<c06 expression>", "eval")
+    return c
 
 
 def _members(body):
@@ -186,24 +195,35 @@ class Reference:
             # a dynamic target sees only `context`
             uri = inh[1] if inh[0] == "s" else eval(inh[1], {"__builtins__": {}}, {"context": self.ctx})
         self.k = len(self.levels) - 1
+        # a call stack longer than the number of distinct render callables repeats one of them; callables take no
+        # data-dependent branch, so such a stack never unwinds
+        self.max_depth = sum(len(lv["members"]) + 1 for lv in self.levels) + 1
+        self.callables = self.max_depth - 1
+        self.views = [_View(self, j) for j in range(self.k + 1)]
+        self._env = {}
 
     # ---- environments
     def env(self, i, local_vars):
-        e = dict(self.ctx)
-        e["context"] = self.ctx
-        e["self"] = _View(self, 0)
-        e["local"] = _View(self, i)
-        if i < self.k:
-            e["parent"] = _View(self, i + 1)
-        if i > 0:
-            e["next"] = _View(self, i - 1)
-        e.update(local_vars)
+        e = self._env.get(i)
+        if e is None:
+            e = dict(self.ctx)
+            e["context"] = self.ctx
+            e["self"] = self.views[0]
+            e["local"] = self.views[i]
+            if i < self.k:
+                e["parent"] = self.views[i + 1]
+            if i > 0:
+                e["next"] = self.views[i - 1]
+            self._env[i] = e
+        if local_vars:
+            e = dict(e)
+            e.update(local_vars)
         return e
 
     def _enter(self):
         self.depth += 1
         self.steps += 1
-        if self.depth > MAX_DEPTH:
+        if self.depth > self.max_depth:
             raise RefRecursion()
 
     def body_callable(self, j):
@@ -213,13 +233,14 @@ class Reference:
                 self.bodies += 1
                 f = self.levels[j]["file"]
                 lv = {}
+                pageargs = kw
                 if f.get("page"):
                     # "name=default" list; Python binds it
                     ns = {}
                     exec("def _sig(%s, **pageargs): return locals()" % f["page"], ns)
                     lv = ns["_sig"](**kw)
-                    lv.pop("pageargs", None)
-                self.run(f["body"], j, lv)
+                    pageargs = lv.pop("pageargs")
+                self.run(f["body"], j, lv, pageargs)
             finally:
                 self.depth -= 1
             return ""
@@ -228,16 +249,20 @@ class Reference:
 
     def member_callable(self, i, nd):
         def member(**kw):
+            if nd[0] == "D" and kw and "**" not in nd[3]:
+                # reached from a named-block position, which forwards the page's keyword arguments: a def that
+                # does not accept them cannot stand in for a block; what then happens is not fixed by the statement
+                raise RefDontCare()
             self._enter()
             try:
-                self.run(nd[2], i, {})
+                self.run(nd[2], i, {}, kw if nd[0] == "B" else {})
             finally:
                 self.depth -= 1
             return ""
 
         return member
 
-    def run(self, nodes, i, local_vars):
+    def run(self, nodes, i, local_vars, pageargs):
         out = self.out
         for nd in nodes:
             k = nd[0]
@@ -247,12 +272,12 @@ class Reference:
                 code = nd[1]
                 if code.startswith(("parent.", "next.")):
                     self.dispatch += 1
-                out.append(str(eval(code, self.env(i, local_vars))))
+                out.append(str(eval(_compiled(code), self.env(i, local_vars))))
             elif k == "D":
                 pass
             elif k == "B":
                 if nd[1] is None:
-                    self.run(nd[2], i, local_vars)  # in place, a closure over the enclosing callable
+                    self.run(nd[2], i, local_vars, pageargs)  # in place, a closure over the enclosing callable
                 elif any(nd[1] in lv["members"] for lv in self.levels[i + 1 :]):
                     self.suppressed += 1  # a level toward the base declares it: not this position
                 else:
@@ -261,26 +286,28 @@ class Reference:
                             if j < i:
                                 self.overridden += 1
                             break
-                    getattr(_View(self, 0), nd[1])()
+                    getattr(self.views[0], nd[1])(**pageargs)
             elif k == "IF":
                 out.append("\n")
-                self.run(nd[1], i, local_vars)
+                self.run(nd[1], i, local_vars, pageargs)
                 out.append("\n")
             elif k in ("C", "CN"):
                 out.append(WRAP_OPEN)
-                self.run(nd[1], i, local_vars)
+                self.run(nd[1], i, local_vars, pageargs)
                 out.append(WRAP_CLOSE)
             else:
                 raise ValueError(nd)
 
     def render(self):
-        """('out', text) | ('err', 'missing') | ('err', 'recursion')"""
+        """('out', text) | ('err', 'missing') | ('err', 'recursion') | ('dontcare', '')"""
         try:
-            self.body_callable(self.k)()
+            self.body_callable(self.k)(**self.ctx)
         except RefRecursion:
             return ("err", "recursion")
         except RefMissing:
             return ("err", "missing")
+        except RefDontCare:
+            return ("dontcare", "def-for-block-with-pageargs")
         return ("out", "".join(self.out))
 
 
@@ -298,12 +325,13 @@ def compile_verdict(f):
     block names unique within a template; named blocks inside defs or calls rejected."""
     names = []
     defs = []
+    topdefs = []
     bad = []
 
-    def walk(nodes, in_def, in_call):
+    def walk(nodes, in_def, in_call, top=False):
         for nd in nodes:
             if nd[0] == "D":
-                defs.append(nd[1])
+                (topdefs if top else defs).append(nd[1])
                 walk(nd[2], True, in_call)
             elif nd[0] == "B":
                 if nd[1] is not None:
@@ -312,15 +340,17 @@ def compile_verdict(f):
                         bad.append(nd[1])
                 walk(nd[2], in_def, in_call)
             elif nd[0] == "IF":
-                walk(nd[1], in_def, in_call)
+                walk(nd[1], in_def, in_call, top)
             elif nd[0] in ("C", "CN"):
                 walk(nd[1], in_def, True)
 
-    walk(f["body"], False, False)
+    walk(f["body"], False, False, True)
     if bad or len(set(names)) != len(names):
         return "reject"
+    if set(names) & set(topdefs):
+        return "reject"  # documented with the uniqueness rule: "a similar error is raised if a top level def shares the name"
     if set(names) & set(defs):
-        return "dontcare"  # a def and a block of one name: the statement speaks of block names only
+        return "dontcare"  # a nested def and a block of one name: not fixed
     return "accept"
 
 
@@ -356,14 +386,14 @@ BLOCKS = ("b", "bp")
 DEFAULT = ("-", "-", 0, 0, 0, 0, "s", "-")
 
 
-def member_node(kind, name, i, fill, inner):
+def member_node(kind, name, i, fill, inner, sig=""):
     tag = "%s@%d%s" % (name, i, fill)
     if kind == "d":
-        return ("D", name, [("T", "(" + tag)] + inner + [("T", ")")])
+        return ("D", name, [("T", "(" + tag)] + inner + [("T", ")")], sig)
     if kind == "dp":
-        return ("D", name, [("T", "(" + tag + "^"), ("E", "parent.%s()" % name)] + inner + [("T", ")")])
+        return ("D", name, [("T", "(" + tag + "^"), ("E", "parent.%s()" % name)] + inner + [("T", ")")], sig)
     if kind == "dn":
-        return ("D", name, [("T", "(" + tag + "~"), ("E", "next.%s()" % name)] + inner + [("T", ")")])
+        return ("D", name, [("T", "(" + tag + "~"), ("E", "next.%s()" % name)] + inner + [("T", ")")], sig)
     if kind == "b":
         return ("B", name, [("T", "{" + tag)] + inner + [("T", "}")])
     if kind == "bp":
@@ -371,7 +401,7 @@ def member_node(kind, name, i, fill, inner):
     raise ValueError(kind)
 
 
-def build_file(i, L, spec, al, probes):
+def build_file(i, L, spec, al, probes, defsig=""):
     m1, m2, nest, attr, page, anon, inh, cc = spec
     fill = al["fill"]
     n1, n2 = al["n1"], al["n2"]
@@ -380,14 +410,14 @@ def build_file(i, L, spec, al, probes):
         body += [("T", " z="), ("E", "z")]
     if anon:
         body.append(("B", None, [("T", "(anon@%d)" % i)]))
-    node2 = member_node(m2, n2, i, fill, []) if m2 != "-" else None
+    node2 = member_node(m2, n2, i, fill, [], defsig) if m2 != "-" else None
     if m1 != "-":
         inner = []
         if anon:
             inner.append(("B", None, [("T", "(anon-in-%s@%d)" % (n1, i))]))
         if nest:
             inner.append(node2)
-        body.append(member_node(m1, n1, i, fill, inner))
+        body.append(member_node(m1, n1, i, fill, inner, defsig))
     if node2 is not None and not nest:
         body.append(node2)
     body.append(("T", "|"))
@@ -413,12 +443,12 @@ def build_file(i, L, spec, al, probes):
     return f
 
 
-def build_program(chain, al, probes):
+def build_program(chain, al, probes, defsig=""):
     L = len(chain)
     files = {}
     ctx = {"P": "@helper:P", "A": "@helper:A"}
     for i, spec in enumerate(chain):
-        files[al["uri"] % i] = build_file(i, L, spec, al, probes)
+        files[al["uri"] % i] = build_file(i, L, spec, al, probes, defsig)
         if i < L - 1 and spec[6] == "d":
             ctx["up%d" % (i + 1)] = al["uri"] % (i + 1)
     return {"files": files, "main": al["uri"] % 0, "ctx": ctx}
@@ -458,7 +488,7 @@ def chain_nontrivial(chain):
 
 
 # --------------------------------------------------------------------------
-# grids: a grid is (family, L, [options of level 0, .., options of level L-1], probes); its chains are the
+# grids: a grid is (family, L, [options of level 0, .., options of level L-1], probes, def signature); its chains are the
 # chain_valid() elements of the product, in product order (level 0 slowest)
 
 
@@ -493,7 +523,7 @@ def grid_members(L, two, ccs, fam):
                     for cc in _cc(pos, ccs):
                         o.append((m1, m2, nest, 0, 0, 0, "s", cc))
         opts.append(o)
-    return (fam, L, opts, PROBES_M12 if two else PROBES_M1)
+    return (fam, L, opts, PROBES_M12 if two else PROBES_M1, "**kw" if two else "")
 
 
 def grid_body(L, fam="C"):
@@ -508,7 +538,7 @@ def grid_body(L, fam="C"):
                     for cc in _cc(pos, ("-", "n", "s", "nz", "sz")):
                         o.append((m1, "-", 0, 0, page, anon, "s", cc))
         opts.append(o)
-    return (fam, L, opts, PROBES_BODY)
+    return (fam, L, opts, PROBES_BODY, "")
 
 
 def grid_attr(L, fam="D"):
@@ -523,12 +553,11 @@ def grid_attr(L, fam="D"):
                     for cc in _cc(pos, ("-", "n")):
                         o.append((m1, "-", 0, attr, 0, 0, inh, cc))
         opts.append(o)
-    return (fam, L, opts, PROBES_ATTR)
+    return (fam, L, opts, PROBES_ATTR, "")
 
 
 def grid_chains(grid):
-    fam, L, opts, probes = grid
-    for chain in itertools.product(*opts):
+    for chain in itertools.product(*grid[2]):
         if chain_valid(chain):
             yield chain
 
@@ -575,11 +604,11 @@ def _place(pos, blk, tagn):
     if pos == "in-if":
         return [("IF", [blk])]
     if pos == "in-def":
-        return [("D", "f%d" % tagn, [blk])]
+        return [("D", "f%d" % tagn, [blk], "")]
     if pos == "in-anon-in-def":
-        return [("D", "f%d" % tagn, [("B", None, [blk])])]
+        return [("D", "f%d" % tagn, [("B", None, [blk])], "")]
     if pos == "in-def-in-block":
-        return [("B", "w%d" % tagn, [("D", "f%d" % tagn, [blk])])]
+        return [("B", "w%d" % tagn, [("D", "f%d" % tagn, [blk], "")])]
     if pos == "in-call":
         return [("C", [blk])]
     if pos == "in-nscall":
@@ -612,7 +641,7 @@ def grid_file(case, al):
         body += _place(p, ("B", x, [("T", "{%s" % x), by, ("T", "}")]), 1)
     elif kind == "defblock":
         # a def and a block of one name (q = 'def-first' | 'block-first')
-        d = ("D", x, [("T", "(def %s)" % x)])
+        d = ("D", x, [("T", "(def %s)" % x)], "")
         body += ([d] + _place(p, bx, 1)) if q == "def-first" else (_place(p, bx, 1) + [d])
     elif kind == "anon2":
         body += _place(p, ("B", None, [("T", "<a1>")]), 1) + _place(q, ("B", None, [("T", "<a2>")]), 2)
